@@ -17,9 +17,12 @@
 package clientcredentials
 
 import (
+	"errors"
 	"strings"
 	"time"
 )
+
+var errNoTokenInfo = errors.New("response from the token endpoint does not contain any token information")
 
 type TokenInfo struct {
 	AccessToken  string    `json:"access_token"`
@@ -95,6 +98,12 @@ func (r TokenEndpointResponse) error() error {
 func (r TokenEndpointResponse) TokenInfo() (*TokenInfo, error) {
 	if err := r.error(); err != nil {
 		return nil, err
+	}
+
+	// the response contained none of the expected properties. In that case none of the embedded
+	// objects is created while unmarshalling it
+	if r.TokenInfoResponse == nil {
+		return nil, errNoTokenInfo
 	}
 
 	var expiry time.Time
